@@ -4,11 +4,15 @@
       arguments of the C20 domain [ok_key]/[ok_val]): the file the next process
       loads is [cfg_add l sec (eff_key k v) (eff_val k v)] — the key and the
       value as the line-based loader reads them back (tabs removed, split at
-      the FIRST '=', both sides trimmed).
+      the FIRST '=', both sides trimmed).  Since `config` refuses a key with
+      '=', a TAB or white space around it, the key of every ACCEPTED call is
+      read back as itself ([accepted_key_is_effective]): the file is
+      [cfg_add l sec k (eff_val k v)].
    B. A setting PERSISTS: after any later history in which no accepted
-      `config` call on the same file has the same section and the same
-      effective key, [sec.key] still maps to the stored value; more generally
-      every (section, key) that no later accepted call names is as before.
+      `config` call on the same file has the same section and the same key,
+      [sec.key] still maps to the stored value; more generally every
+      (section, key) that no later accepted call names is as before; an
+      accepted call alters no other key ([config_never_alters_another_key]).
    C. The identity the loaded context yields (local over global).
    D. C12 on reachable repositories: `commit` succeeds and `log` shows the
       configured name and e-mail, the instant and the offset of the call, and
@@ -99,6 +103,24 @@ Proof. intros k v Hk. unfold eff_key. rewrite (eff_kv_ok_key k v Hk). reflexivit
 
 Lemma eff_val_ok : forall k v, ok_key k -> ok_val v -> eff_val k v = v.
 Proof. intros k v Hk Hv. unfold eff_val. rewrite (eff_kv_ok k v Hk Hv). reflexivity. Qed.
+
+(* under such a key ANY value is read back without a final CR, without TABs
+   and without the white space around it *)
+Lemma eff_val_ok_key : forall k v, ok_key k -> eff_val k v = trim_space (remove_tabs (drop_cr v)).
+Proof. intros k v Hk. unfold eff_val. rewrite (eff_kv_ok_key k v Hk). reflexivity. Qed.
+
+(* the key of every call that passes the guard of `config` is in the C20
+   domain, hence read back as itself: an accepted call sets the key it names *)
+Lemma accepted_key_ok : forall key v s k,
+  split_all x2e key = [s; k] -> config_args_ok s k key v = true -> ok_key k.
+Proof.
+  intros key v s k Hsp Hok. apply (ConfigCmdFacts.config_args_ok_iff key v s k Hsp) in Hok.
+  apply Hok.
+Qed.
+
+Theorem accepted_key_is_effective : forall key v s k,
+  split_all x2e key = [s; k] -> config_args_ok s k key v = true -> eff_key k v = k.
+Proof. intros key v s k Hsp Hok. apply eff_key_ok. exact (accepted_key_ok key v s k Hsp Hok). Qed.
 
 (* the loader on the line of ANY pair without line feed *)
 Lemma load_raw_line : forall (k v : bytes) L (acc : cfg) s (m1 : kvs),
@@ -308,13 +330,14 @@ Definition setting (glob : bool) (w : world) (sec k : bytes) : option bytes :=
   | None => None
   end.
 
-(* the file, the section and the EFFECTIVE key a `config` call names when its
-   arguments pass the guard of the command *)
+(* the file, the section and the key a `config` call names when its arguments
+   pass the guard of the command (the key as given: it is the key the loader
+   reads back, [accepted_key_is_effective]) *)
 Definition config_target (c : cmd) : option (bool * bytes * bytes) :=
   match c with
   | CConfig g [key; v] =>
       match split_all x2e key with
-      | [s; k] => if config_args_ok s key v then Some (g, s, eff_key k v) else None
+      | [s; k] => if config_args_ok s k key v then Some (g, s, k) else None
       | _ => None
       end
   | _ => None
@@ -390,20 +413,20 @@ Proof.
   - rewrite (step_not_loaded e c w Hc (or_introl Ei)) in Hstep. discriminate Hstep.
 Qed.
 
-(* ---------- `config`, for every call: refused, or the effective pair is set ---------- *)
+(* ---------- `config`, for every call: refused, or the key is set to the value read back ---------- *)
 Lemma config_step_cases : forall e g args w,
   w_inited w = true -> CfgLoads w ->
   step (ACmd e (CConfig g args)) w = (w, OErr, []) \/
   exists key v s k x tr,
-    args = [key; v] /\ split_all x2e key = [s; k] /\ config_args_ok s key v = true /\
+    args = [key; v] /\ split_all x2e key = [s; k] /\ config_args_ok s k key v = true /\
     ctx_of w = Some x /\
     wf_cfg (if g then x_g x else x_l x) /\
-    wf_cfg (cfg_add (if g then x_g x else x_l x) s (eff_key k v) (eff_val k v)) /\
+    wf_cfg (cfg_add (if g then x_g x else x_l x) s k (eff_val k v)) /\
     cfg_of (file_of g w) = Some (if g then x_g x else x_l x) /\
     step (ACmd e (CConfig g args)) w = (apply_effects tr w, OOk [], tr) /\
     Forall ConfigCmdFacts.cfg_eff tr /\
     file_of g (apply_effects tr w)
-      = CfgFile (Some (cfg_add (if g then x_g x else x_l x) s (eff_key k v) (eff_val k v))) /\
+      = CfgFile (Some (cfg_add (if g then x_g x else x_l x) s k (eff_val k v))) /\
     file_of (negb g) (apply_effects tr w) = file_of (negb g) w.
 Proof.
   intros e g args w Hi Hgood.
@@ -413,15 +436,16 @@ Proof.
   unfold ConfigCmdFacts.config_trace.
   destruct args as [|key [|v [|a3 ar]]]; try (left; reflexivity).
   destruct (split_all x2e key) as [|s [|k [|s3 sr]]] eqn:Esp; try (left; reflexivity).
-  destruct (config_args_ok s key v) eqn:Eok; [|left; reflexivity].
+  destruct (config_args_ok s k key v) eqn:Eok; [|left; reflexivity].
   right.
   destruct (ConfigCmdFacts.CfgGood_ctx w x Hgood Ex) as [Hwl Hwg].
   destruct (ConfigCmdFacts.ctx_of_cfgs w x Ex) as [Hxl Hxg].
   pose proof Eok as Hargs. apply (ConfigCmdFacts.config_args_ok_iff key v s k Esp) in Hargs.
-  destruct Hargs as (Hne & Hs & Hk & Hv).
+  destruct Hargs as (Hne & Hs & Hkok & Hv).
+  pose proof (proj1 (proj1 Hkok)) as Hk. pose proof (eff_key_ok k v Hkok) as Ekk.
   destruct g.
   - destruct (cfg_written_eff (x_g x) s k v Hwg (conj Hne Hs) Hk Hv) as [Ew Hwf'].
-    rewrite Ew.
+    rewrite Ekk in Ew, Hwf'. rewrite Ew.
     eexists key, v, s, k, x, _.
     split; [reflexivity|]. split; [exact Esp|]. split; [exact Eok|]. split; [reflexivity|].
     split; [exact Hwg|]. split; [exact Hwf'|]. split; [exact Hxg|]. split; [reflexivity|].
@@ -431,7 +455,7 @@ Proof.
     + rewrite apply_effects_app. cbn [negb file_of apply_effects fold_left apply_effect].
       destruct (w_gcfg w); reflexivity.
   - destruct (cfg_written_eff (x_l x) s k v Hwl (conj Hne Hs) Hk Hv) as [Ew Hwf'].
-    rewrite Ew.
+    rewrite Ekk in Ew, Hwf'. rewrite Ew.
     eexists key, v, s, k, x, _.
     split; [reflexivity|]. split; [exact Esp|]. split; [exact Eok|]. split; [reflexivity|].
     split; [exact Hwl|]. split; [exact Hwf'|]. split; [exact Hxl|]. split; [reflexivity|].
@@ -503,8 +527,8 @@ Theorem config_accepted : forall e glob key v sec k w0 w1 out tr,
   CfgLoads w0 -> split_all x2e key = [sec; k] ->
   step (ACmd e (CConfig glob [key; v])) w0 = (w1, OOk out, tr) ->
   out = [] /\
-  setting glob w1 sec (eff_key k v) = Some (eff_val k v) /\
-  (forall s' k', (s', k') <> (sec, eff_key k v) -> setting glob w1 s' k' = setting glob w0 s' k') /\
+  setting glob w1 sec k = Some (eff_val k v) /\
+  (forall s' k', (s', k') <> (sec, k) -> setting glob w1 s' k' = setting glob w0 s' k') /\
   file_of (negb glob) w1 = file_of (negb glob) w0 /\
   w_inited w1 = true /\ CfgLoads w1.
 Proof.
@@ -528,25 +552,98 @@ Proof.
     + exact Hgood1.
 Qed.
 
+(* a section of one of the two files, as the next process finds it *)
+Definition has_section (glob : bool) (w : world) (sec : bytes) : Prop :=
+  exists c, cfg_of (file_of glob w) = Some c /\ sec_get c sec <> None.
+
+(* no section is lost, and the section named exists afterwards *)
+Theorem config_accepted_sections : forall e glob key v sec k w0 w1 out tr,
+  CfgLoads w0 -> split_all x2e key = [sec; k] ->
+  step (ACmd e (CConfig glob [key; v])) w0 = (w1, OOk out, tr) ->
+  has_section glob w1 sec /\
+  (forall s', has_section glob w0 s' -> has_section glob w1 s') /\
+  (forall s', s' <> sec -> has_section glob w1 s' -> has_section glob w0 s').
+Proof.
+  intros e glob key v sec k w0 w1 out tr Hgood Hsp Hstep.
+  assert (Hnc : CConfig glob [key; v] <> CInit) by discriminate.
+  destruct (ok_step_loaded e _ w0 w1 out tr Hnc Hstep) as [Hi _].
+  destruct (config_step_cases e glob [key; v] w0 Hi Hgood)
+    as [Href | (key' & v' & s' & k' & x & tr' & Ea & Esp & Eok & Ex & Hwf & Hwf' & Hfile & Hstep' & Heff & Hnew & Hoth)].
+  - rewrite Href in Hstep. discriminate Hstep.
+  - injection Ea as <- <-. rewrite Hsp in Esp. injection Esp as <- <-.
+    rewrite Hstep' in Hstep. injection Hstep as Hw1 Hout Htr. subst w1 out tr'.
+    unfold has_section. rewrite Hnew, Hfile. cbn [cfg_of].
+    split; [|split].
+    + eexists. split; [reflexivity|]. intro Hnone.
+      pose proof (cfg_add_get (if glob then x_g x else x_l x) sec k (eff_val k v)) as Hget.
+      unfold cfg_lookup in Hget. rewrite Hnone in Hget. discriminate Hget.
+    + intros s0 (c & Ec & Hc). injection Ec as <-. eexists. split; [reflexivity|].
+      apply cfg_add_keeps_sections. exact Hc.
+    + intros s0 Hne (c & Ec & Hc). injection Ec as <-. eexists. split; [reflexivity|].
+      rewrite (cfg_add_sections _ sec k (eff_val k v) s0 Hne) in Hc. exact Hc.
+Qed.
+
 (* ---------- on reachable repositories ---------- *)
+
+(* a key the loader would read back as another key is never accepted *)
+Theorem accepted_config_key_ok : forall e glob key v w0 w1 out tr sec k,
+  split_all x2e key = [sec; k] ->
+  step (ACmd e (CConfig glob [key; v])) w0 = (w1, OOk out, tr) ->
+  ok_key k /\ eff_key k v = k.
+Proof.
+  intros e glob key v w0 w1 out tr sec k Hsp Hstep.
+  assert (Hk : ok_key k).
+  { destruct (config_args_ok sec k key v) eqn:Eok; [exact (accepted_key_ok key v sec k Hsp Eok)|].
+    rewrite (ConfigCmdFacts.hostile_config_refused e glob key v w0) in Hstep; [discriminate Hstep|].
+    intros sec' k' Hsp'. rewrite Hsp in Hsp'. injection Hsp' as <- <-. exact Eok. }
+  split; [exact Hk | exact (eff_key_ok k v Hk)].
+Qed.
+
+(* MAIN (B0), C20 for EVERY accepted call.  `config [--global] <sec>.<k> <v>`
+   answered Ok in a reachable repository: the next process finds under
+   <sec>.<k> the value as the loader reads it back, EVERY other key of every
+   section of that file is what it was, no section is lost, and the other file
+   is untouched.  (Before `config` refused keys with '=', a TAB or white space
+   around them this was false: `config "user. name" X` and
+   `config user.name=x y` were accepted and overwrote user.name.) *)
+Theorem config_never_alters_another_key : forall e glob key v w0 w1 out tr sec k,
+  Reachable w0 -> split_all x2e key = [sec; k] ->
+  step (ACmd e (CConfig glob [key; v])) w0 = (w1, OOk out, tr) ->
+  (forall s' k', (s', k') <> (sec, k) -> setting glob w1 s' k' = setting glob w0 s' k') /\
+  setting glob w1 sec k = Some (eff_val k v) /\
+  eff_val k v = trim_space (remove_tabs (drop_cr v)) /\
+  (forall s', has_section glob w0 s' -> has_section glob w1 s') /\
+  file_of (negb glob) w1 = file_of (negb glob) w0.
+Proof.
+  intros e glob key v w0 w1 out tr sec k Hr Hsp Hstep.
+  pose proof (CtxFacts.reachable_cfgs_load w0 Hr) as Hgood.
+  destruct (config_accepted e glob key v sec k w0 w1 out tr Hgood Hsp Hstep)
+    as (_ & Hset & Hfr & Hoth & _ & _).
+  destruct (config_accepted_sections e glob key v sec k w0 w1 out tr Hgood Hsp Hstep)
+    as (_ & Hsecs & _).
+  split; [exact Hfr|]. split; [exact Hset|]. split; [|split; [exact Hsecs | exact Hoth]].
+  apply eff_val_ok_key.
+  exact (proj1 (accepted_config_key_ok e glob key v w0 w1 out tr sec k Hsp Hstep)).
+Qed.
+
 
 (* MAIN (B2), C20 over histories.  `config [--global] <sec>.<k> <v>` answered
    Ok in a reachable repository; then, after ANY later history [h] none of
    whose `config` calls names the same file, section and key, the next process
-   still finds the stored value under <sec>.<key>.  (Key and value as the
-   loader reads them back; in the C20 domain they are [k] and [v]: see
-   [setting_persists_ok].) *)
+   still finds the stored value under <sec>.<k>.  (The value as the loader
+   reads it back: without TABs, without the white space around it,
+   [eff_val_ok_key]; in the C20 domain it is [v]: see [setting_persists_ok].) *)
 Theorem setting_persists : forall e glob key v sec k w0 w1 out tr h,
   Reachable w0 -> split_all x2e key = [sec; k] ->
   step (ACmd e (CConfig glob [key; v])) w0 = (w1, OOk out, tr) ->
-  no_reconfig glob sec (eff_key k v) h = true ->
-  setting glob (run h w1) sec (eff_key k v) = Some (eff_val k v).
+  no_reconfig glob sec k h = true ->
+  setting glob (run h w1) sec k = Some (eff_val k v).
 Proof.
   intros e glob key v sec k w0 w1 out tr h Hr Hsp Hstep Hno.
   pose proof (CtxFacts.reachable_cfgs_load w0 Hr) as Hgood.
   destruct (config_accepted e glob key v sec k w0 w1 out tr Hgood Hsp Hstep)
     as (_ & Hset & _ & _ & Hi1 & Hgood1).
-  rewrite (setting_run h glob sec (eff_key k v) w1 Hi1 Hgood1 Hno). exact Hset.
+  rewrite (setting_run h glob sec k w1 Hi1 Hgood1 Hno). exact Hset.
 Qed.
 
 Corollary setting_persists_ok : forall e glob key v sec k w0 w1 out tr h,
@@ -556,8 +653,8 @@ Corollary setting_persists_ok : forall e glob key v sec k w0 w1 out tr h,
   setting glob (run h w1) sec k = Some v.
 Proof.
   intros e glob key v sec k w0 w1 out tr h Hr Hsp Hk Hv Hstep Hno.
-  pose proof (setting_persists e glob key v sec k w0 w1 out tr h Hr Hsp Hstep) as H.
-  rewrite (eff_key_ok k v Hk), (eff_val_ok k v Hk Hv) in H. apply H. exact Hno.
+  pose proof (setting_persists e glob key v sec k w0 w1 out tr h Hr Hsp Hstep Hno) as H.
+  rewrite (eff_val_ok k v Hk Hv) in H. exact H.
 Qed.
 
 (* every OTHER key of that file — and every key of the other file — is, after
@@ -566,7 +663,7 @@ Qed.
 Theorem other_settings_persist : forall e glob key v sec k w0 w1 out tr h g' s' k',
   Reachable w0 -> split_all x2e key = [sec; k] ->
   step (ACmd e (CConfig glob [key; v])) w0 = (w1, OOk out, tr) ->
-  (g', s', k') <> (glob, sec, eff_key k v) ->
+  (g', s', k') <> (glob, sec, k) ->
   no_reconfig g' s' k' h = true ->
   setting g' (run h w1) s' k' = setting g' w0 s' k'.
 Proof.
@@ -681,6 +778,38 @@ Proof.
   - rewrite (other_settings_persist e true fullkey v s_user key w0 w1 out tr h false s_user key
                Hr Hsp Hstep); [exact Hnone | discriminate | exact Hnol].
   - exact (setting_persists_ok e true fullkey v s_user key w0 w1 out tr h Hr Hsp Hk Hv Hstep Hnog).
+Qed.
+
+(* the same for EVERY accepted call, in or out of the C20 domain of values:
+   the identity is the value as the loader reads it back *)
+Theorem local_identity_persists_any : forall e fullkey key v w0 w1 out tr h x,
+  Reachable w0 -> split_all x2e fullkey = [s_user; key] ->
+  step (ACmd e (CConfig false [fullkey; v])) w0 = (w1, OOk out, tr) ->
+  no_reconfig false s_user key h = true ->
+  ctx_of (run h w1) = Some x ->
+  ident_get (x_l x) (x_g x) key = Some (trim_space (remove_tabs (drop_cr v))).
+Proof.
+  intros e fullkey key v w0 w1 out tr h x Hr Hsp Hstep Hno Hx.
+  apply (ident_local (run h w1) x key _ Hx).
+  rewrite <- (eff_val_ok_key key v (proj1 (accepted_config_key_ok e false fullkey v w0 w1 out tr s_user key Hsp Hstep))).
+  exact (setting_persists e false fullkey v s_user key w0 w1 out tr h Hr Hsp Hstep Hno).
+Qed.
+
+Theorem global_identity_persists_any : forall e fullkey key v w0 w1 out tr h x,
+  Reachable w0 -> split_all x2e fullkey = [s_user; key] ->
+  setting false w0 s_user key = None ->
+  step (ACmd e (CConfig true [fullkey; v])) w0 = (w1, OOk out, tr) ->
+  no_reconfig true s_user key h = true ->
+  no_reconfig false s_user key h = true ->
+  ctx_of (run h w1) = Some x ->
+  ident_get (x_l x) (x_g x) key = Some (trim_space (remove_tabs (drop_cr v))).
+Proof.
+  intros e fullkey key v w0 w1 out tr h x Hr Hsp Hnone Hstep Hnog Hnol Hx.
+  apply (ident_global (run h w1) x key _ Hx).
+  - rewrite (other_settings_persist e true fullkey v s_user key w0 w1 out tr h false s_user key
+               Hr Hsp Hstep); [exact Hnone | discriminate | exact Hnol].
+  - rewrite <- (eff_val_ok_key key v (proj1 (accepted_config_key_ok e true fullkey v w0 w1 out tr s_user key Hsp Hstep))).
+    exact (setting_persists e true fullkey v s_user key w0 w1 out tr h Hr Hsp Hstep Hnog).
 Qed.
 
 (* the four user-visible instances *)
@@ -957,8 +1086,7 @@ Lemma email_call_not_name : forall e g E,
   names false s_user k_name (ACmd e (CConfig g [str "user.email"%string; E])) = false.
 Proof.
   intros e g E. cbn [names config_target]. rewrite split_user_email.
-  destruct (config_args_ok s_user (str "user.email"%string) E); [|reflexivity].
-  rewrite (eff_key_ok k_email E ok_key_email).
+  destruct (config_args_ok s_user k_email (str "user.email"%string) E); [|reflexivity].
   destruct g; vm_compute; reflexivity.
 Qed.
 
@@ -1002,14 +1130,14 @@ Qed.
 (* ================================================================== *)
 (** * F. Examples (closed computations) *)
 
-(* ---------- F1. why the key of [names] is the EFFECTIVE key ---------- *)
-(* FALSE for the model: "a later accepted `config` call changes <sec>.<key>
-   only if its argument is literally <sec>.<key>".  `config user.name=x y`
-   passes the guard of the command; its key "name=x" is not "name"; the line
-   written is "<TAB>name=x = y", which the loader splits at the FIRST '=':
-   user.name is now "x = y".  A TAB inside the key, or blanks around it, have
-   the same effect (TABs are removed, both sides are trimmed).  [names]
-   compares the key the loader will read back, so it flags all three. *)
+(* ---------- F1. the keys that used to be read back as ANOTHER key ---------- *)
+(* `config user.name=x y` used to pass the guard of the command; its key
+   "name=x" is not "name"; the line written was "<TAB>name=x = y", which the
+   loader splits at the FIRST '=': user.name became "x = y".  A TAB inside the
+   key, or blanks around it, had the same effect (TABs are removed, both sides
+   are trimmed).  All three are now REFUSED: nothing is written, user.name
+   keeps its value, and the calls name no key ([names] is false: they may
+   occur in the later history of [setting_persists]). *)
 Definition px_env : env := mkEnv 1700000000 0.
 Definition px_hist : list action :=
   [ACmd px_env CInit; ACmd px_env (CConfig false [str "user.name"%string; str "A"%string])].
@@ -1017,26 +1145,36 @@ Definition px_eq : action := ACmd px_env (CConfig false [str "user.name=x"%strin
 Definition px_tab : action :=
   ACmd px_env (CConfig false [(str "user.na"%string ++ [c_tab] ++ str "me"%string)%list; str "z"%string]).
 Definition px_blank : action := ACmd px_env (CConfig false [str "user. name "%string; str "q"%string]).
+Definition px_lead : action := ACmd px_env (CConfig false [str "user. name"%string; str "X"%string]).
 
-Example px_literal_key_is_not_enough :
+Example px_ambiguous_keys_refused :
   setting false (run px_hist w_empty) s_user k_name = Some (str "A"%string) /\
-  (* the three keys are not "name" ... *)
+  (* the keys are not "name" ... *)
   split_all x2e (str "user.name=x"%string) = [s_user; str "name=x"%string] /\
   split_all x2e (str "user.na"%string ++ [c_tab] ++ str "me"%string)%list
     = [s_user; (str "na"%string ++ [c_tab] ++ str "me"%string)%list] /\
   split_all x2e (str "user. name "%string) = [s_user; str " name "%string] /\
-  (* ... yet each call is accepted and user.name is what it says afterwards *)
-  step px_eq (run px_hist w_empty) = (run (px_hist ++ [px_eq]) w_empty, OOk [],
-      [ESetLcfg (w_lcfg (run (px_hist ++ [px_eq]) w_empty))]) /\
-  setting false (run (px_hist ++ [px_eq]) w_empty) s_user k_name = Some (str "x = y"%string) /\
-  setting false (run (px_hist ++ [px_tab]) w_empty) s_user k_name = Some (str "z"%string) /\
-  setting false (run (px_hist ++ [px_blank]) w_empty) s_user k_name = Some (str "q"%string) /\
-  (* the effective keys *)
+  split_all x2e (str "user. name"%string) = [s_user; str " name"%string] /\
+  (* ... but the loader would read each of them back as "name" ... *)
   eff_kv (str "name=x"%string) (str "y"%string) = (k_name, str "x = y"%string) /\
-  names false s_user k_name px_eq = true /\
-  names false s_user k_name px_tab = true /\
-  names false s_user k_name px_blank = true.
-Proof. vm_compute. repeat split; reflexivity. Qed.
+  eff_key (str "na"%string ++ [c_tab] ++ str "me"%string)%list (str "z"%string) = k_name /\
+  eff_key (str " name "%string) (str "q"%string) = k_name /\
+  eff_key (str " name"%string) (str "X"%string) = k_name /\
+  (* ... so each call is refused, the world unchanged, user.name as before *)
+  (forall a, In a [px_eq; px_tab; px_blank; px_lead] ->
+     step a (run px_hist w_empty) = (run px_hist w_empty, OErr, []) /\
+     setting false (run (px_hist ++ [a]) w_empty) s_user k_name = Some (str "A"%string) /\
+     names false s_user k_name a = false) /\
+  (* a key of the C20 domain is accepted as before; so is an empty key *)
+  setting false (run (px_hist ++ [ACmd px_env (CConfig false [str "user.name"%string; str "ok name"%string])]) w_empty)
+    s_user k_name = Some (str "ok name"%string) /\
+  setting false (run (px_hist ++ [ACmd px_env (CConfig false [str "s."%string; str "v"%string])]) w_empty)
+    (str "s"%string) [] = Some (str "v"%string).
+Proof.
+  do 9 (split; [vm_compute; reflexivity|]).
+  split; [|split; vm_compute; reflexivity].
+  intros a [<-|[<-|[<-|[<-|[]]]]]; vm_compute; repeat split; reflexivity.
+Qed.
 
 (* values: blanks around the value and TABs inside it are not read back, a
    value of the C20 domain is *)
@@ -1108,13 +1246,19 @@ Print Assumptions cfg_add_reload.
 Print Assumptions cfg_written_eff.
 Print Assumptions config_step_cases.
 Print Assumptions setting_run.
+Print Assumptions accepted_key_is_effective.
 Print Assumptions config_accepted.
+Print Assumptions config_accepted_sections.
+Print Assumptions accepted_config_key_ok.
+Print Assumptions config_never_alters_another_key.
 Print Assumptions setting_persists.
 Print Assumptions setting_persists_ok.
 Print Assumptions other_settings_persist.
 Print Assumptions reachable_setting_run.
 Print Assumptions local_identity_persists.
 Print Assumptions global_identity_persists.
+Print Assumptions local_identity_persists_any.
+Print Assumptions global_identity_persists_any.
 Print Assumptions local_name_persists.
 Print Assumptions local_email_persists.
 Print Assumptions global_name_persists.
@@ -1123,6 +1267,6 @@ Print Assumptions commit_then_log_reachable.
 Print Assumptions log_shows_last_local_name.
 Print Assumptions log_shows_last_global_name.
 Print Assumptions log_shows_configured_identity.
-Print Assumptions px_literal_key_is_not_enough.
+Print Assumptions px_ambiguous_keys_refused.
 Print Assumptions px_effective_values.
 Print Assumptions px_identity_shown.
